@@ -13,6 +13,7 @@ M_CLASS_NONLOCAL = "class_attribute_counts_as_nonlocal_binding"
 M_CLASS_HIDES = "class_attribute_hides_outer_binding"
 M_LET_LIST = "let_nonlocal_removal_skips_next_name"
 M_GENFN_SETX = "setx_of_let_name_in_generator_function_comprehension"
+M_FIRST_ITER = "first_iterable_reads_a_variable_of_the_form"
 
 
 def _m_class_nonlocal(rec, params):
@@ -47,6 +48,35 @@ def _m_genfn_setx(rec, params):
             and bool(o.get("generator_function_assigns_undeclared_let_variable")))
 
 
+def _m_first_iter(rec, params):
+    # the failure disappears exactly when the first iterable is evaluated into a temporary before the form
+    o = rec.get("observed", {})
+    return (rec.get("key") in ("log-differs", "exception-differs", "globals-differ")
+            and o.get("variants", {}).get("first_iterable_hoisted") == "pass")
+
+
+def hoist_first_iterables(forms):
+    """(setv r (lfor x (range (min 2 E)) ..)) -> (do (setv tmpit E) (setv r (lfor x (range (min 2 tmpit)) ..)));
+    the reference result is the same: the first iterable belongs to the enclosing scope"""
+    changed = [False]
+
+    def w(f):
+        if isinstance(f, tuple) and f:
+            if f[0] == "setv" and isinstance(f[2], tuple) and f[2][0] == "lfor" and f[2][2] and \
+                    f[2][2][0][0] == "for" and isinstance(f[2][2][0][2], tuple):
+                lf = f[2]
+                c0 = lf[2][0]
+                changed[0] = True
+                new = ("lfor", lf[1], [("for", c0[1], ("rng", ("sym", "tmpit")))] + [w(c) for c in lf[2][1:]], w(lf[3]))
+                return ("do", [("setv", "tmpit", c0[2][1]), ("setv", f[1], new)])
+            return tuple(w(a) if isinstance(a, (tuple, list)) else a for a in f)
+        if isinstance(f, list):
+            return [w(a) if isinstance(a, (tuple, list)) else a for a in f]
+        return f
+    out = [w(f) for f in forms]
+    return out if changed[0] else None
+
+
 def genfn_let_walrus_undeclared(py_src):
     """the symptom: a compiler-made generator function (_hy_anon_*) assigns `_hy_let_<x>_<n>` with := although it
     declares only the un-renamed <x> nonlocal/global -- returns the list of such (function, variable)"""
@@ -78,6 +108,7 @@ def register_matchers(chk, pid):
     chk.matchers[p + M_CLASS_HIDES] = _m_class_hides
     chk.matchers[p + M_LET_LIST] = _m_let_list
     chk.matchers[p + M_GENFN_SETX] = _m_genfn_setx
+    chk.matchers[p + M_FIRST_ITER] = _m_first_iter
 
 
 # ------------------------------------------------------------------ correspondence (T3)
@@ -241,8 +272,11 @@ def oracle(chk, pid, labelled, need):
     for i, c, r in failing:
         forms = labelled[i][1]
         for name, tf in (("class_attributes_renamed", rename_class_attrs), ("declarations_split", split_declarations),
-                         ("both", lambda f: split_declarations(rename_class_attrs(f)))):
-            variants.append((i, name, tf(forms)))
+                         ("both", lambda f: split_declarations(rename_class_attrs(f))),
+                         ("first_iterable_hoisted", hoist_first_iterables)):
+            vf = tf(forms)
+            if vf is not None:
+                variants.append((i, name, vf))
     vres = {}
     if variants:
         vr = sc.run_programs([sp.render_program(v[2]) for v in variants], names=sp.POOL)
